@@ -1701,7 +1701,9 @@ impl Scenario for EvCell {
                     if let Some(conn) = x.sim.clients[c].conn {
                         x.closed_conns.insert(conn.to_bits());
                     }
-                    x.sim.disconnect(c);
+                    // (as a backend does it: a despawn command issued in its receive set of the
+                    // frame that also finds the client's last messages in the mailbox)
+                    x.sim.disconnect_in_receive(c);
                     x.line.push_str(&format!(" c{c} dropped after delivery;"));
                 }
                 self.advance(x);
